@@ -14,7 +14,7 @@ pub fn registry(property: &str) -> Option<CheckSpec> {
         "C38" => Some(CheckSpec {
             property: "C38",
             level: "exploration",
-            parts: vec![Part::new(scenario::LpStaking, 20_000, 400_000)],
+            parts: vec![Part::new(scenario::LpStaking, 15_000, 300_000)],
             assumptions: vec![
                 "the private reward functions are observed through the GT minted by claim_gt / unstake_lp; the reference allows every intermediate quantity (average APY, per-second rate, two products) to be rounded either down or up".into(),
                 "GM (market token) staking only; stake_glv differs from stake_gm only in the pricing CPI and is not exercised".into(),
